@@ -7,6 +7,7 @@ EXTENDS Transclusion, Json
 CONSTANTS Universe, Known   \* "Q" | "T";  Known = deviations currently listed as findings
 
 KnownC04 == {"ArgTrailingNewlineDropped"}
+NumKeyDev == "ComputedNumericKeyNotPositional"   \* see Transclusion.tla; family K below
 AllDevs == {"NamedValueTrimmedBeforeExpansion"}
 
 (* ---------------- constructors ---------------- *)
@@ -103,18 +104,135 @@ FallPages == { <<Switch(v, <<[key |-> <<"a">>, val |-> FT], [key |-> <<"SP", "v"
                v \in Values \cup {<<Txt(<<"b">>)>>, <<Txt(<<"c">>)>>, <<Txt(<<"d">>)>>}, hd \in BOOLEAN }
 Pages == CallPages \cup CtlPages \cup FallPages
 
-(* ---------------- generator ---------------- *)
-VARIABLES lib, page
-Init == \/ (lib \in Libs /\ page \in Pages)
-        \/ (lib \in LibsR \cup Libs /\ page \in NamePages)
-Next == UNCHANGED <<lib, page>>
-Spec == Init /\ [][Next]_<<lib, page>>
 
+(* ---------------- family N: the SHAPE of parameter names ---------------- *)
+\* The other families write every parameter name as one atom (or a padded numeral).  Here one
+\* two-word name is written in several ways (one blank, two blanks, a tabulator, broken over two
+\* lines, a mixed run, padded), next to a one-word control ("fn" is another parameter) and a
+\* three-word name in two writings; the writing at the call and the writing in the body vary
+\* independently, names are also produced by expansion ({{{f{{W2}}n}}}, {{N2|f{{W2}}n=v}}, a name
+\* that depends on an argument), reach the parameter through a forwarding template, occur twice
+\* in one call (later duplicates win) and on the page itself.  One library holds all of it.
+NameWritings == <<
+  <<"f", "SP", "n">>,                             \* N1  one blank
+  <<"f", "SP", "SP", "n">>,                       \* N2  two blanks
+  <<"f", "TAB", "n">>,                            \* N3  a tabulator
+  <<"f", "NL", "n">>,                             \* N4  broken over two lines
+  <<"f", "SP", "NL", "SP", "n">>,                 \* N5  mixed run
+  <<"NL", "f", "SP", "SP", "n", "SP">>,           \* N6  two blanks, padded
+  <<"f", "n">>,                                   \* N7  control: no blank, another parameter
+  <<"f", "SP", "SP", "n", "TAB", "TAB", "g">>,    \* N8  three words, two runs
+  <<"f", "SP", "n", "SP", "g">> >>                \* N9  the same three words, single blanks
+NT == <<"N1", "N2", "N3", "N4", "N5", "N6", "N7", "N8", "N9">>   \* ({{{w|d}}}) : the default shows a name that is not found
+LT == <<"L1", "L2", "L3", "L4", "L5", "L6", "L7", "L8", "L9">>   \* <{{{w}}}>     : stays literal when not found
+NW == 1..Len(NameWritings)
+NTs == {NT[i] : i \in NW}
+LTs == {LT[i] : i \in NW}
+PC(n, hd, d) == [k |-> "pc", name |-> n, hasDef |-> hd, def |-> d]
+NamedC(key, v) == [named |-> TRUE, key |-> key, val |-> v]
+Dd == <<Txt(<<"d">>)>>
+Vv == <<Txt(<<"v">>)>>
+RefBody(w) == Plain(<<Txt(<<"(">>), ParD(w, Dd), Txt(<<")">>)>>)
+LitBody(w) == Plain(<<Txt(<<"<">>), Par(w), Txt(<<">">>)>>)
+ViaCall(t) == <<Txt(<<"f">>), Call(t, <<>>), Txt(<<"n">>)>>        \* f{{t}}n
+ViaArg(n) == <<Txt(<<"f">>), Par(<<n>>), Txt(<<"n">>)>>             \* f{{{n}}}n
+LibN ==
+  [t \in NTs |-> RefBody(NameWritings[CHOOSE i \in NW : NT[i] = t])]
+  @@ [t \in LTs |-> LitBody(NameWritings[CHOOSE i \in NW : LT[i] = t])]
+  @@ ("W1" :> Plain(<<Txt(<<"SP">>)>>)) @@ ("W2" :> Plain(<<Txt(<<"SP", "SP">>)>>)) @@ ("SP" :> SpBody)
+  \* the name of the reference is produced by expansion / depends on an argument
+  @@ ("C1" :> Plain(<<Txt(<<"(">>), PC(ViaCall("W2"), TRUE, Dd), Txt(<<")">>)>>))
+  @@ ("CL" :> Plain(<<Txt(<<"<">>), PC(ViaCall("W2"), FALSE, <<>>), Txt(<<">">>)>>))
+  @@ ("C2" :> Plain(<<Txt(<<"(">>), PC(ViaArg("1"), TRUE, Dd), Txt(<<")">>)>>))
+  \* the usual infobox idiom
+  @@ ("NI" :> Plain(<<If(<<ParD(NameWritings[2], <<>>)>>, <<Txt(<<"y">>)>>, <<Txt(<<"n">>)>>)>>))
+  \* forwarding templates: same writing as the callee, another writing, key produced by an argument / a call
+  @@ ("F1" :> Plain(<<Call("N2", <<Named(NameWritings[2], <<Par(<<"1">>)>>)>>)>>))
+  @@ ("F2" :> Plain(<<Call("N4", <<Named(NameWritings[1], <<Par(<<"1">>)>>)>>)>>))
+  @@ ("F3" :> Plain(<<Call("N2", <<NamedC(ViaArg("2"), <<Par(<<"1">>)>>)>>)>>))
+  @@ ("F4" :> Plain(<<Call("N2", <<NamedC(ViaCall("W2"), <<Par(<<"1">>)>>)>>)>>))
+  @@ ("F5" :> Plain(<<Call("L5", <<Named(NameWritings[5], <<Par(<<"1">>)>>)>>)>>))
+  \* family K: keys that become a numeral by expansion
+  @@ ("ONE" :> Plain(<<Txt(<<"1">>)>>)) @@ ("TWO" :> Plain(<<Txt(<<"2">>)>>)) @@ ("PONE" :> Plain(<<Txt(<<"SP", "1", "NL">>)>>))
+  @@ ("NP" :> Plain(<<Txt(<<"(">>), ParD(<<"1">>, Dd), Txt(<<",">>), ParD(<<"2">>, <<Txt(<<"e">>)>>), Txt(<<")">>)>>))
+  @@ ("FK" :> Plain(<<Call("NP", <<NamedC(<<Call("ONE", <<>>)>>, <<Par(<<"1">>)>>)>>)>>))                    \* {{NP|{{ONE}}={{{1}}}}}
+  @@ ("FP" :> Plain(<<Call("NP", <<NamedC(<<Par(<<"2">>)>>, <<Par(<<"1">>)>>)>>)>>))                          \* {{NP|{{{2}}}={{{1}}}}}
+  @@ ("FD" :> Plain(<<Call("NP", <<NamedC(<<ParD(<<"k">>, <<Call("TWO", <<>>)>>)>>, <<Par(<<"1">>)>>)>>)>>))  \* {{NP|{{{k|{{TWO}}}}}={{{1}}}}}
+Blanks == { <<>>, <<"SP">>, <<"SP", "SP">>, <<"TAB">> }
+DupW == IF Universe = "Q" THEN {1, 2, 4, 7, 8, 9} ELSE NW
+PagesN ==
+  \* one named argument: writing at the call x writing in the body
+  { <<Call(t, <<Named(NameWritings[j], Vv)>>)>> : t \in NTs \cup LTs \cup {"C1", "CL", "NI"}, j \in NW }
+  \* the value is padded by an inner expansion
+  \cup { <<Call(NT[i], <<Named(NameWritings[i], <<Call("SP", <<>>)>>)>>)>> : i \in NW }
+  \* two named arguments (later duplicates win)
+  \cup { <<Call(NT[i], <<Named(NameWritings[j], <<Txt(<<"1">>)>>), Named(NameWritings[k], <<Txt(<<"2">>)>>)>>)>> :
+           i \in NW, j \in DupW, k \in DupW }
+  \* the key of the call is produced by expansion
+  \cup { <<Call(t, <<NamedC(ViaCall(w), Vv)>>)>> : t \in NTs \cup LTs \cup {"C1", "CL"}, w \in {"W1", "W2"} }
+  \* the name of the reference depends on an argument
+  \cup { <<Call("C2", <<Pos(<<Txt(b)>>), Named(NameWritings[j], Vv)>>)>> : b \in Blanks, j \in NW }
+  \* through a forwarding template
+  \cup { <<Call(t, <<Pos(Vv)>>)>> : t \in {"F1", "F2", "F4", "F5"} }
+  \cup { <<Call("F3", <<Pos(Vv), Pos(<<Txt(b)>>)>>)>> : b \in Blanks }
+  \* references on the page itself (no frame)
+  \cup { <<Par(NameWritings[j])>> : j \in NW } \cup { <<ParD(NameWritings[j], Dd)>> : j \in NW }
+
+\* family K: the key of a named argument becomes a (positive) numeral only by expansion: it denotes the
+\* positional parameter of that number all the same ("arguments are expanded in the caller's frame",
+\* "later duplicates win" - also between a numbered name and a position)
+KeyVia == { <<Call("ONE", <<>>)>>, <<Call("TWO", <<>>)>>, <<Call("PONE", <<>>)>>, <<Txt(<<"SP">>), Call("ONE", <<>>), Txt(<<"NL">>)>>,
+            <<If(<<Txt(<<"x">>)>>, <<Txt(<<"1">>)>>, <<>>)>>, <<ParD(<<"z">>, <<Txt(<<"1">>)>>)>>, <<ParD(<<"z">>, <<Call("TWO", <<>>)>>)>>,
+            <<Txt(<<"1">>)>>, <<Call("W1", <<>>), Txt(<<"2">>)>> }
+PagesK ==
+  { <<Call("NP", <<NamedC(k, Vv)>>)>> : k \in KeyVia }
+  \cup { <<Call("NP", <<Pos(<<Txt(<<"w">>)>>), NamedC(k, Vv)>>)>> : k \in KeyVia }
+  \cup { <<Call("NP", <<NamedC(k, Vv), Pos(<<Txt(<<"w">>)>>)>>)>> : k \in KeyVia }
+  \cup { <<Call("FK", <<Pos(Vv)>>)>>, <<Call("FP", <<Pos(Vv), Pos(<<Txt(<<"1">>)>>)>>)>>, <<Call("FP", <<Pos(Vv), Pos(<<Txt(<<"SP", "2">>)>>)>>)>>,
+          <<Call("FD", <<Pos(Vv)>>)>>, <<Call("FD", <<Pos(Vv), Named(<<"k">>, <<Txt(<<"1">>)>>)>>)>> }
+
+\* what the statement fixes for this family, stated directly (checked once, at start-up):
+\* a call supplies the parameter when the two names are equal after trimming - in either reading;
+\* it does not when they still differ after folding the interior runs - in either reading.
+Lit(w) == <<"<", "{{{">> \o w \o <<"}}}", ">">>
+LawSameWriting ==
+  \A i \in NW, j \in NW :
+    LET pd == <<Call(NT[i], <<Named(NameWritings[j], Vv)>>)>>
+        pl == <<Call(LT[i], <<Named(NameWritings[j], Vv)>>)>>
+        wi == Trim(NameWritings[i])
+        wj == Trim(NameWritings[j])
+    IN /\ (wi = wj) => /\ Expand(pd, LibN, {}) = <<"(", "v", ")">> /\ Expand(pd, LibN, {NameFold}) = <<"(", "v", ")">>
+                       /\ Expand(pl, LibN, {}) = <<"<", "v", ">">> /\ Expand(pl, LibN, {NameFold}) = <<"<", "v", ">">>
+       /\ (FoldRuns(wi) # FoldRuns(wj)) =>
+            /\ Expand(pd, LibN, {}) = <<"(", "d", ")">> /\ Expand(pd, LibN, {NameFold}) = <<"(", "d", ")">>
+            /\ Expand(pl, LibN, {}) = Lit(wi) /\ Expand(pl, LibN, {NameFold}) = Lit(FoldRuns(wi))
+       /\ (FoldRuns(wi) = FoldRuns(wj)) => Expand(pd, LibN, {NameFold}) = <<"(", "v", ")">>
+ASSUME LawSameWriting
+
+(* ---------------- generator ---------------- *)
+VARIABLES lib, page, fam
+Init == \/ (lib \in Libs /\ page \in Pages /\ fam = "G")
+        \/ (lib \in LibsR \cup Libs /\ page \in NamePages /\ fam = "G")
+        \/ (lib = LibN /\ page \in PagesN /\ fam = "N")
+        \/ (lib = LibN /\ page \in PagesK /\ fam = "K")
+Next == UNCHANGED <<lib, page, fam>>
+Spec == Init /\ [][Next]_<<lib, page, fam>>
+
+\* family N: next to the reading of the statement (names are trimmed) the reading of the
+\* implementation (interior runs folded as well), each with and without the known deviations
 Emit ==
   LET ideal == Expand(page, lib, {})
       asis == Expand(page, lib, Known)
-  IN PrintT(<<"CASE", ToJson([lib |-> lib, page |-> page, ideal |-> ideal, asis |-> asis])>>)
+  IN IF fam = "N"
+     THEN PrintT(<<"CASE", ToJson([lib |-> lib, page |-> page, ideal |-> ideal, asis |-> asis, fam |-> fam,
+                                   fold |-> Expand(page, lib, {NameFold}), asisFold |-> Expand(page, lib, Known \cup {NameFold})])>>)
+     ELSE IF fam = "K"
+     THEN PrintT(<<"CASE", ToJson([lib |-> lib, page |-> page, ideal |-> ideal, asis |-> asis, fam |-> fam,
+                                   asisK |-> Expand(page, lib, Known \cup {NumKeyDev})])>>)
+     ELSE PrintT(<<"CASE", ToJson([lib |-> lib, page |-> page, ideal |-> ideal, asis |-> asis])>>)
 GenInv == Emit
+\* the names of the other families are single atoms or padded numerals: both readings coincide
+LawOneWordNames == (fam = "G") => Expand(page, lib, {NameFold}) = Expand(page, lib, {})
 
 (* ---------------- laws of the reference, checked by TLC on every case ------ *)
 \* (1) padding a named value or key never changes the result
@@ -135,4 +253,9 @@ LawIncludable ==
          (segs[i].w \in {"noinclude", "comment"} /\ segs[i].c # <<>>) =>
             \A j \in 1..Len(inc) : inc[j] # segs[i].c[1]
 Laws == LawNamedTrim /\ LawIncludable
+
+(* ---------------- Demo: TLC finds the lost argument itself (Gen_Transclusion_DemoNumKey.cfg) ---------- *)
+InitK == lib = LibN /\ page \in PagesK /\ fam = "K"
+SpecK == InitK /\ [][Next]_<<lib, page, fam>>
+NumKeyHarmless == Expand(page, lib, {NumKeyDev}) = Expand(page, lib, {})
 =============================================================================
